@@ -1216,3 +1216,57 @@ Section NullReal.
     unfold cre. simpl. unfold cmul, cconj. simpl. f_equal; ring.
   Qed.
 End NullReal.
+
+(* Part 7: one nulling step of the model over the reals, with the code's formulas. *)
+Section NullStepR.
+  Open Scope R_scope.
+  Variables (eps2 prec uprec2 : R) (ints : Z -> nat -> Z) (unif norm : rsrc -> nat -> R).
+  Let E := renv eps2 prec uprec2 ints unif norm.
+  Notation Cr := (cplx rops).
+
+  Lemma bs_matrix_R m1 m2 theta phi :
+    bs_matrix rops E m1 m2 theta phi =
+    bs_amp rops m1 m2 (cos (half rops theta)) (sin (half rops theta)) (cisR phi).
+  Proof. reflexivity. Qed.
+
+  (* generic branch: theta = 2 arctan(|u_ij+1| / |u_ij|), phi = angle u_ij - angle u_ij+1 zeroes u_ij *)
+  Theorem null_step_generic_R n (U : @mat (R * R)) r j a0 a1 :
+    (S j < n)%nat -> (r < n)%nat -> U r j <> (0, 0) ->
+    angle_ok (U r j) a0 -> angle_ok (U r (S j)) a1 ->
+    null_update rops n U
+      (bs_matrix rops E j (S j) (2 * atan (cabsR (U r (S j)) / cabsR (U r j))) (a0 - a1)) r j = (0, 0).
+  Proof.
+    intros Hj Hr Hz H0 H1. rewrite bs_matrix_R.
+    apply (null_step_model (o:=rops)); try assumption.
+    apply code_answer_nulls; assumption.
+  Qed.
+
+  (* the |u_ij| < 1e-20 branch (theta = pi, phi = 0) leaves the target entry as it is:
+     exactly zero iff it was exactly zero *)
+  Theorem null_step_zero_branch_R n (U : @mat (R * R)) r j :
+    (S j < n)%nat -> (r < n)%nat ->
+    null_update rops n U (bs_matrix rops E j (S j) PI 0) r j = U r j.
+  Proof.
+    intros Hj Hr. rewrite bs_matrix_R, (null_step_model_target (o:=rops)) by assumption.
+    assert (Hh : half rops PI = PI / 2) by (unfold half, two; simpl; field).
+    rewrite Hh, cos_PI2, sin_PI2, cisR_0. destruct (U r j) as [x y], (U r (S j)) as [x1 y1].
+    unfold cre, gph. simpl. unfold cmul, cconj, csub. simpl. f_equal; ring.
+  Qed.
+
+  (* zeros made earlier survive: an entry outside columns j, j+1 is untouched, and a row
+     whose entries in both columns vanish keeps them *)
+  Theorem null_step_keeps_R n (U : @mat (R * R)) r j x theta phi :
+    (S j < n)%nat -> (r < n)%nat -> (x < n)%nat -> U r x = (0, 0) ->
+    (x = j \/ x = S j -> U r j = (0, 0) /\ U r (S j) = (0, 0)) ->
+    null_update rops n U (bs_matrix rops E j (S j) theta phi) r x = (0, 0).
+  Proof. intros. rewrite bs_matrix_R. apply (null_keep_model (o:=rops)); assumption. Qed.
+
+  Theorem null_step_unitary_R n (U : @mat (R * R)) j theta phi :
+    (S j < n)%nat -> unitary Cr n U ->
+    unitary Cr n (null_update rops n U (bs_matrix rops E j (S j) theta phi)).
+  Proof.
+    intros Hj HU. rewrite bs_matrix_R. apply (null_unitary_model (o:=rops)); try assumption.
+    - apply (cisR_unit (half rops theta)).
+    - apply (cis_unit (o:=rops) E (Hcis_R eps2 prec uprec2 ints unif norm)).
+  Qed.
+End NullStepR.
